@@ -6,7 +6,7 @@ frame model (all cell values and all distinct row labels symbolic, 0..3 rows): o
 by z3 for all values at those shapes -> reported as shape-bounded.  Native part: every list class of every
 game, operation sequences, against the same oracle.
 """
-from pyvc.dsl import contract, lemma, bounded, Int, Real, Bool, Obj, Const, Choice, ListT, TimedListT
+from pyvc.dsl import contract, lemma, bounded, Int, Real, Bool, Obj, Const, Choice, ListT, TimedListT, DictT
 from pyvc.ghost import eqr, implies, rows, labels, columns, same_multiset, nondecreasing, nonincreasing
 
 TL = "reamber.base.lists.TimedList:TimedList"
@@ -427,3 +427,40 @@ class empty_has_declared_fields:
         for c in _classes(CTOR_CLASSES):
             for n in (0, 1, 2, 5):
                 yield dict(cls=c, rows=n)
+
+
+@contract("C16", TL + ".append", args=dict(self=lists_of(BASIC[:1], sizes=[0, 1, 2]), val=lists_of(BASIC[:1], sizes=[0, 1, 2]), sort=Const(True)))
+class append_sorted:
+    """append(x, sort=True): the rows of both lists, in non-decreasing offset order - also when the receiver is empty."""
+
+    assumes = SHAPE_NOTE
+
+    def ensures_all_rows_in_time_order(self, val, sort, result):
+        offs = [r["offset"] for r in rows(result)]
+        return nondecreasing(offs) and same_multiset(rows(result), rows(self) + rows(val)) and type(result) is type(self)
+
+    def witnesses(rng):
+        for _ in range(100):
+            c = rng.choice(BASIC + HOLDS)
+            yield dict(self=_rand_list(rng, c), val=_rand_list(rng, c), sort=True)
+
+
+@contract("C16", TL + ".from_dict", args=dict(cls=Choice(_classes(CTOR_CLASSES[:4])), d=Choice([ListT(DictT(offset=Real()), n) for n in (0, 1, 2)])))
+class from_dict_fills_declared_fields:
+    """from_dict(records with only `offset`): one row per record in order, exactly the declared fields, the given
+    offsets, every other field its declared default."""
+
+    assumes = SHAPE_NOTE
+
+    def ensures_rows_and_fields(cls, d, result):
+        from pyvc.ghost import rows as rows_of
+
+        props = cls._item_class()._props
+        rs = rows_of(result)
+        return (type(result) is cls and len(rs) == len(d) and sorted(columns(result)) == sorted(declared(cls))
+                and all(r["offset"] == x["offset"] and all(r[c] == props[c][1] for c in props if c != "offset") for r, x in zip(rs, d)))
+
+    def witnesses(rng):
+        for c in _classes(CTOR_CLASSES):
+            for n in (0, 1, 3):
+                yield dict(cls=c, d=[dict(offset=float(rng.choice([0, -5, 10.5]))) for _ in range(n)])
